@@ -35,6 +35,7 @@ var specs = []fnSpec{
 	{"DataBlockMetadata.validateFilterSection", "validateFilterSection"},
 	{"FileMetadata.validate", "validate"},
 	{"DataBlockMetadata.OnDiskSize", "OnDiskSize"},
+	{"evaluatePrefilterCondition", "evaluatePrefilterCondition"},
 }
 
 type tr struct {
@@ -42,6 +43,7 @@ type tr struct {
 	consts    map[string]string // name -> Lean literal
 	strTypes  map[string]bool   // named types with underlying string
 	structs   map[string]map[string]string
+	ptrFields map[string]map[string]bool // struct -> field -> declared as pointer (modelled as Option)
 	funcs     map[string]*ast.FuncDecl
 	leanNames map[string]string // go key -> lean name
 	env       map[string]string // local name -> Go type
@@ -95,6 +97,8 @@ func (t *tr) leanType(g string) string {
 		return "Bool"
 	case strings.HasPrefix(g, "[]"):
 		return "List " + t.leanType(g[2:])
+	case strings.HasPrefix(g, "map[string]"):
+		return "List (String × " + t.leanType(strings.TrimPrefix(g, "map[string]")) + ")"
 	case g == "BloomSearchEngine":
 		return "Engine"
 	}
@@ -156,6 +160,29 @@ func (t *tr) typeOf(e ast.Expr) string {
 	return ""
 }
 
+// isPtrField: e is `x.F` where F is declared as a pointer in x's struct type (modelled as Option).
+func (t *tr) isPtrField(e ast.Expr) bool {
+	sel, ok := e.(*ast.SelectorExpr)
+	if !ok {
+		return false
+	}
+	return t.ptrFields[t.typeOf(sel.X)][sel.Sel.Name]
+}
+
+// li renames Go identifiers that are reserved words in Lean.
+func li(name string) string {
+	switch name {
+	case "exists", "from", "at", "fun", "end", "match", "then", "open", "show", "have", "by", "in", "where", "with", "do", "meta", "Type", "Prop", "Sort":
+		return name + "_"
+	}
+	return name
+}
+
+func isNilIdent(e ast.Expr) bool {
+	id, ok := e.(*ast.Ident)
+	return ok && id.Name == "nil"
+}
+
 func leanStr(s string) string {
 	var b strings.Builder
 	b.WriteByte('"')
@@ -186,7 +213,7 @@ func (t *tr) expr(e ast.Expr) string {
 			return v.Name
 		}
 		if _, local := t.env[v.Name]; local {
-			return v.Name
+			return li(v.Name)
 		}
 		if c, ok := t.consts[v.Name]; ok {
 			return c
@@ -220,6 +247,10 @@ func (t *tr) expr(e ast.Expr) string {
 		}
 		return t.expr(v.X) + "." + v.Sel.Name
 	case *ast.StarExpr:
+		if t.isPtrField(v.X) {
+			// dereference of an Option-modelled pointer field; the Go code has checked it against nil
+			return "(" + t.expr(v.X) + ").get!"
+		}
 		return t.expr(v.X)
 	case *ast.UnaryExpr:
 		switch v.Op {
@@ -232,6 +263,12 @@ func (t *tr) expr(e ast.Expr) string {
 		}
 		die("unary %s at %s", v.Op, t.pos(v))
 	case *ast.BinaryExpr:
+		if (v.Op == token.EQL || v.Op == token.NEQ) && isNilIdent(v.Y) && t.isPtrField(v.X) {
+			if v.Op == token.EQL {
+				return "(" + t.expr(v.X) + ").isNone"
+			}
+			return "(" + t.expr(v.X) + ").isSome"
+		}
 		l, r := t.expr(v.X), t.expr(v.Y)
 		switch v.Op {
 		case token.EQL:
@@ -419,6 +456,21 @@ func (t *tr) stmts(list []ast.Stmt, rest string) string {
 	case *ast.DeclStmt, *ast.EmptyStmt:
 		return tail()
 	case *ast.AssignStmt:
+		if len(v.Lhs) == 2 && len(v.Rhs) == 1 && v.Tok == token.DEFINE {
+			// `val, ok := m[k]` on a map[string]T (modelled as an association list)
+			if ix, ok := v.Rhs[0].(*ast.IndexExpr); ok {
+				mt := t.typeOf(ix.X)
+				a, aok := v.Lhs[0].(*ast.Ident)
+				b, bok := v.Lhs[1].(*ast.Ident)
+				if strings.HasPrefix(mt, "map[string]") && aok && bok {
+					lk := "(List.lookup " + t.atom(ix.Index) + " " + t.atom(ix.X) + ")"
+					t.env[a.Name] = strings.TrimPrefix(mt, "map[string]")
+					t.env[b.Name] = "bool"
+					return "let " + li(a.Name) + " := " + lk + ".getD default\nlet " + li(b.Name) + " := " + lk + ".isSome\n" + tail()
+				}
+			}
+			die("two-value assignment at %s", t.pos(v))
+		}
 		if len(v.Lhs) == 1 && len(v.Rhs) == 1 {
 			rhs := t.expr(v.Rhs[0])
 			switch l := v.Lhs[0].(type) {
@@ -429,7 +481,7 @@ func (t *tr) stmts(list []ast.Stmt, rest string) string {
 							t.env[l.Name] = ty
 						}
 					}
-					return "let " + l.Name + " := " + rhs + "\n" + tail()
+					return "let " + li(l.Name) + " := " + rhs + "\n" + tail()
 				}
 			case *ast.SelectorExpr:
 				if id, ok := l.X.(*ast.Ident); ok && v.Tok == token.ASSIGN {
@@ -693,7 +745,7 @@ func main() {
 		os.Exit(2)
 	}
 	t := &tr{fset: fset, consts: map[string]string{}, strTypes: map[string]bool{}, structs: map[string]map[string]string{},
-		funcs: map[string]*ast.FuncDecl{}, leanNames: map[string]string{}}
+		funcs: map[string]*ast.FuncDecl{}, leanNames: map[string]string{}, ptrFields: map[string]map[string]bool{}}
 	var files []*ast.File
 	for _, p := range pkgs {
 		names := make([]string, 0, len(p.Files))
@@ -728,12 +780,17 @@ func main() {
 						}
 						if st, ok := sp.Type.(*ast.StructType); ok {
 							m := map[string]string{}
+							pf := map[string]bool{}
 							for _, f := range st.Fields.List {
 								for _, n := range f.Names {
 									m[n.Name] = typeString(f.Type)
+									if _, isPtr := f.Type.(*ast.StarExpr); isPtr {
+										pf[n.Name] = true
+									}
 								}
 							}
 							t.structs[sp.Name.Name] = m
+							t.ptrFields[sp.Name.Name] = pf
 						}
 					case *ast.ValueSpec:
 						if v.Tok != token.CONST {
